@@ -40,6 +40,7 @@ type c02Case struct {
 	Msgs    []c02Beh
 	Gate    string // "" or hook point at which message 1 is parked until the others are done
 	Overlap bool   // the Publish call for message 1 is held inside the publisher until the handlers of the other messages have returned
+	CloseTO bool   // Router.Close runs into its (short) CloseTimeout while the only invocation is still running; it then ends normally: the message is settled by that outcome
 	LateMsg bool   // the handler is stopped (Handler.Stop) while the source keeps its channel open; a message sent then is handled like any other or given up unsettled, never settled without the chain
 }
 
@@ -115,6 +116,19 @@ func runC02(c *Ctx) error {
 		cases = append(cases, c02Case{HasPub: true, Prefix: "none", Overlap: true, Msgs: []c02Beh{{Self: "none", End: "ok", NOuts: 1, Pub: bad}, ok1, ok1}})
 		cases = append(cases, c02Case{HasPub: true, Prefix: "pass", Overlap: true, Msgs: []c02Beh{{Self: "none", End: "ok", NOuts: 2, Pub: bad}, ok1, {Self: "none", End: "ok", NOuts: 2, Pub: "accept"}}}) // (the trace spec knows m1..m3)
 	}
+	// (1e) Close times out while the invocation runs; the invocation's outcome still decides the settlement
+	for _, hp := range []bool{true, false} {
+		for _, end := range []string{"ok", "err"} {
+			b := c02Beh{Self: "none", End: end, Pub: "accept"}
+			if end == "err" {
+				b.ErrK = "plain"
+			}
+			if hp && end == "ok" {
+				b.NOuts = 1
+			}
+			cases = append(cases, c02Case{HasPub: hp, Prefix: "none", CloseTO: true, Msgs: []c02Beh{b}})
+		}
+	}
 	// (1d) a message that the source still hands over after the handler was stopped is handled like any other, or
 	// (the cancelled subscription gave it up) not handled and not settled at all
 	for _, hp := range []bool{true, false} {
@@ -168,7 +182,12 @@ func runC02(c *Ctx) error {
 }
 
 func c02Run(r *tr.Run, cs c02Case, rng *rand.Rand) (gateReached bool) {
-	router, err := message.NewRouter(message.RouterConfig{CloseTimeout: 5 * time.Second}, nil)
+	closeTimeout := 5 * time.Second
+	if cs.CloseTO {
+		closeTimeout = 60 * time.Millisecond
+	}
+	holdCh := make(chan struct{})
+	router, err := message.NewRouter(message.RouterConfig{CloseTimeout: closeTimeout}, nil)
 	if err != nil {
 		panic(err)
 	}
@@ -204,6 +223,9 @@ func c02Run(r *tr.Run, cs c02Case, rng *rand.Rand) (gateReached bool) {
 	}
 	handler := func(msg *message.Message) ([]*message.Message, error) {
 		b := beh[mid(msg.UUID)]
+		if cs.CloseTO {
+			<-waitOr(holdCh, HangBound)
+		}
 		switch b.Self {
 		case "ack":
 			r.Emit("hself", "m", mid(msg.UUID), "kind", "ack")
@@ -441,6 +463,26 @@ func c02Run(r *tr.Run, cs c02Case, rng *rand.Rand) (gateReached bool) {
 			r.Emit("hung", "what", "subscription closed before emit")
 			return
 		}
+	}
+	if cs.CloseTO {
+		// Close gives up waiting for the invocation (an error after CloseTimeout); the invocation then goes on and ends
+		deadline := time.Now().Add(HangBound)
+		for time.Now().Before(deadline) {
+			outMu.Lock()
+			st := started["m1"]
+			outMu.Unlock()
+			if st {
+				break
+			}
+			time.Sleep(time.Millisecond)
+		}
+		cdone := make(chan struct{})
+		go func() { defer close(cdone); _ = router.Close() }()
+		if !WaitOrHang(cdone) {
+			r.Emit("hung", "what", "router close (time-out expected)")
+			return
+		}
+		close(holdCh)
 	}
 	if gate != nil {
 		// let the other messages finish while m1 is parked (if its behaviour reaches the point at all)
